@@ -8,6 +8,7 @@ profiles; nothing is bounded.
 import CamVerif.Model.Cmd
 import CamVerif.Gen.CmdConsts
 import CamVerif.Proofs.C10GenTie
+import CamVerif.Proofs.C10Wrap
 namespace CamVerif.C10
 open CamVerif CamVerif.Cmd
 
@@ -351,6 +352,135 @@ example : ReadPartition 4 0x1000 10 [⟨0x1000, 4⟩, ⟨0x1004, 4⟩, ⟨0x1008
 
 example : writeChunks .dev 8 [1, 2, 3, 4, 5] 22 =
     .ok [⟨8, [1, 2], 2, 10⟩, ⟨10, [3, 4], 2, 10⟩, ⟨12, [5], 1, 9⟩] := by decide
+
+/-! ## Requests that reach or cross the top of the 64-bit address space
+
+The headline theorems assume `a + n ≤ 2^64`.  What happens beyond is decided here for every
+request: the iterators add the chunk length to the address after every non-final chunk, so the
+build profile matters exactly when the START of a later chunk is `≥ 2^64`
+(`ReadAddrOverflows` / `WriteAddrOverflows`: more than one chunk and
+`2^64 ≤ a + m * ((n-1)/m)`, the start of the last chunk). -/
+
+private theorem readPartitionP_iff {m a n : Nat} {cs : List ReadMem} :
+    ReadPartitionP m a n cs ↔ ReadPartition m a n cs := by
+  induction cs generalizing a n with
+  | nil => simp [ReadPartitionP, ReadPartition]
+  | cons c cs ih => simp only [ReadPartitionP, ReadPartition, ih]
+
+private theorem writePartitionP_iff {m a : Nat} {d : Bytes} {cs : List WriteMem} :
+    WritePartitionP m a d cs ↔ WritePartition m a d cs := by
+  induction cs generalizing a d with
+  | nil => simp [WritePartitionP, WritePartition]
+  | cons c cs ih => simp only [WritePartitionP, WritePartition, ih]
+
+/-- **read_partition_last_may_cross** (both profiles): as long as no later chunk STARTS at or
+beyond `2^64`, chunking is Ok and is the exact partition — also when the last chunk ends beyond
+the top of the address space.  Generalises `read_partition` (`a + n ≤ 2^64` implies the
+hypothesis). -/
+theorem read_partition_last_may_cross (p : Profile) (a n b : Nat) (hb : ACK_HEADER_LENGTH < b)
+    (hn : n ≤ U16_MAX) (ho : ¬ ReadAddrOverflows (b - ACK_HEADER_LENGTH) a n) :
+    ∃ cs, readChunks p a n b = .ok cs ∧ ReadPartition (b - ACK_HEADER_LENGTH) a n cs := by
+  obtain ⟨cs, h1, h2⟩ := read_collect_no_overflow p (n + 1) ⟨a, n, b - ACK_HEADER_LENGTH⟩
+    (by simp only; omega) (by simp only; omega) hn ho
+  refine ⟨cs, ?_, readPartitionP_iff.mp h2⟩
+  simp only [readChunks, ReadMem.chunks, if_neg (Nat.not_le.mpr hb), Res.bind_ok]
+  exact h1
+
+/-- **read_checked_panics_iff**: a build with overflow checks panics in read chunking EXACTLY
+when a later chunk's start address leaves the 64-bit range; in every other case it returns the
+partition (previous theorem). -/
+theorem read_checked_panics_iff (p : Profile) (hp : p.overflowChecks = true) (a n b : Nat)
+    (hb : ACK_HEADER_LENGTH < b) (hn : n ≤ U16_MAX) :
+    readChunks p a n b = .panic ↔ ReadAddrOverflows (b - ACK_HEADER_LENGTH) a n := by
+  constructor
+  · intro h
+    by_cases ho : ReadAddrOverflows (b - ACK_HEADER_LENGTH) a n
+    · exact ho
+    · obtain ⟨cs, h1, _⟩ := read_partition_last_may_cross p a n b hb hn ho
+      rw [h1] at h; cases h
+  · intro ho
+    have := read_collect_checked_panics p hp (n + 1) ⟨a, n, b - ACK_HEADER_LENGTH⟩
+      (by simp only; omega) (by simp only; omega) hn ho
+    simp only [readChunks, ReadMem.chunks, if_neg (Nat.not_le.mpr hb), Res.bind_ok]
+    exact this
+
+/-- **read_wrapping_release**: a build without overflow checks never panics in read chunking;
+for EVERY 64-bit start address it yields the exact partition of the request with chunk addresses
+taken modulo `2^64` (same lengths, same budget use as in the headline theorem). -/
+theorem read_wrapping_release (a n b : Nat) (hb : ACK_HEADER_LENGTH < b)
+    (hn : n ≤ U16_MAX) (ha : a < 2 ^ 64) :
+    ∃ cs, readChunks Profile.release a n b = .ok cs ∧
+      ReadPartitionW (b - ACK_HEADER_LENGTH) a n cs := by
+  obtain ⟨cs, h1, h2⟩ := read_collect_release (n + 1) ⟨a, n, b - ACK_HEADER_LENGTH⟩
+    (by simp only; omega) (by simp only; omega) hn ha
+  refine ⟨cs, ?_, h2⟩
+  simp only [readChunks, ReadMem.chunks, if_neg (Nat.not_le.mpr hb), Res.bind_ok]
+  exact h1
+
+private theorem writeChunks_unfold (p : Profile) (a : Nat) (d : Bytes) (b : Nat)
+    (hb : HEADER_LEN + 8 < b) (hn : d.length + 8 ≤ U16_MAX) :
+    writeChunks p a d b =
+      (⟨a, d, 0, b - (HEADER_LEN + 8)⟩ : WriteMemChunks).collect p (d.length + 1) := by
+  simp only [U16_MAX] at hn
+  simp only [writeChunks, WriteMem.new, intoScdLen, U16_MAX]
+  rw [if_pos (by omega), if_pos (by omega)]
+  simp only [Res.bind_ok, Res.pure_eq, WriteMem.chunks, if_neg (Nat.not_le.mpr hb)]
+
+/-- **write_partition_last_may_cross** (both profiles), the write analogue. -/
+theorem write_partition_last_may_cross (p : Profile) (a : Nat) (d : Bytes) (b : Nat)
+    (hb : HEADER_LEN + 8 < b) (hbu : b < 2 ^ 63) (hn : d.length + 8 ≤ U16_MAX)
+    (ho : ¬ WriteAddrOverflows (b - (HEADER_LEN + 8)) a d.length) :
+    ∃ cs, writeChunks p a d b = .ok cs ∧ WritePartition (b - (HEADER_LEN + 8)) a d cs := by
+  obtain ⟨cs, h1, h2⟩ := write_collect_no_overflow p (d.length + 1) ⟨a, d, 0, b - (HEADER_LEN + 8)⟩
+    (by simp only; omega) (by simp only; omega) (by simp) hn (by simp only; omega)
+    (by simpa using ho)
+  refine ⟨cs, ?_, writePartitionP_iff.mp (by simpa using h2)⟩
+  rw [writeChunks_unfold p a d b hb hn]; exact h1
+
+/-- **write_checked_panics_iff**: with overflow checks, write chunking panics EXACTLY when a later
+chunk's start address leaves the 64-bit range. -/
+theorem write_checked_panics_iff (p : Profile) (hp : p.overflowChecks = true) (a : Nat) (d : Bytes)
+    (b : Nat) (hb : HEADER_LEN + 8 < b) (hbu : b < 2 ^ 63) (hn : d.length + 8 ≤ U16_MAX) :
+    writeChunks p a d b = .panic ↔ WriteAddrOverflows (b - (HEADER_LEN + 8)) a d.length := by
+  constructor
+  · intro h
+    by_cases ho : WriteAddrOverflows (b - (HEADER_LEN + 8)) a d.length
+    · exact ho
+    · obtain ⟨cs, h1, _⟩ := write_partition_last_may_cross p a d b hb hbu hn ho
+      rw [h1] at h; cases h
+  · intro ho
+    have := write_collect_checked_panics p hp (d.length + 1) ⟨a, d, 0, b - (HEADER_LEN + 8)⟩
+      (by simp only; omega) (by simp only; omega) (by simp) hn (by simp only; omega)
+      (by simpa using ho)
+    rw [writeChunks_unfold p a d b hb hn]; exact this
+
+/-- **write_wrapping_release**: without overflow checks write chunking never panics and yields,
+for every 64-bit start address, the exact partition of the data with addresses modulo `2^64`. -/
+theorem write_wrapping_release (a : Nat) (d : Bytes) (b : Nat)
+    (hb : HEADER_LEN + 8 < b) (hbu : b < 2 ^ 63) (hn : d.length + 8 ≤ U16_MAX) (ha : a < 2 ^ 64) :
+    ∃ cs, writeChunks Profile.release a d b = .ok cs ∧
+      WritePartitionW (b - (HEADER_LEN + 8)) a d cs := by
+  obtain ⟨cs, h1, h2⟩ := write_collect_release (d.length + 1) ⟨a, d, 0, b - (HEADER_LEN + 8)⟩
+    (by simp only; omega) (by simp only; omega) (by simp) hn (by simp only; omega) ha
+  refine ⟨cs, ?_, by simpa using h2⟩
+  rw [writeChunks_unfold Profile.release a d b hb hn]; exact h1
+
+/-- `a + n ≤ 2^64` (the headline hypothesis) rules the overflow out. -/
+theorem no_overflow_of_within (m a n : Nat) (hm : 0 < m) (ha : a + n ≤ 2 ^ 64) :
+    ¬ ReadAddrOverflows m a n := by
+  intro ⟨hgt, h⟩
+  have : m * ((n - 1) / m) ≤ n - 1 := Nat.mul_div_le _ _
+  omega
+
+/-! Non-vacuity of the wrap-region theorems: a 10-byte read at `2^64 - 6` with 4-byte chunks.
+The last chunk would start at `2^64 + 2`: dev panics, release wraps to address 2. -/
+example : ReadAddrOverflows 4 (2 ^ 64 - 6) 10 := by decide
+example : readChunks .dev (2 ^ 64 - 6) 10 16 = .panic := by decide
+example : readChunks .release (2 ^ 64 - 6) 10 16 =
+    .ok [⟨2 ^ 64 - 6, 4⟩, ⟨2 ^ 64 - 2, 4⟩, ⟨2, 2⟩] := by decide
+/-- a request whose LAST chunk merely ends beyond the top is Ok in both profiles -/
+example : ¬ ReadAddrOverflows 4 (2 ^ 64 - 6) 8 ∧
+    readChunks .dev (2 ^ 64 - 6) 8 16 = .ok [⟨2 ^ 64 - 6, 4⟩, ⟨2 ^ 64 - 2, 4⟩] := by decide
 
 /-- **gen_fn_tie** (tie by regeneration, function bodies): the Lean functions that `rs2lean`
 re-translates from the CURRENT Rust source on every run (FnCmd) are equal, for every input and both
